@@ -196,14 +196,14 @@ def run(tier):
             # every history of length <= 2 then a seeded sample of length 3
             short = [h[:2] for h in hists]
             short = [list(x) for x in sorted(set(tuple(h) for h in short))]
-            sample = rnd.sample(hists, min(len(hists), 600))
+            sample = rnd.sample(hists, min(len(hists), 380))
             todo = short + sample
             out.exhaustive = False
         else:
             todo = hists
             out.exhaustive = True
         # plus long random histories beyond the model-checking bound
-        nlong = 100 if tier == 'quick' else 1500
+        nlong = 60 if tier == 'quick' else 1500
         for i in range(nlong):
             todo.append([rnd.choice(files) for _ in range(rnd.randint(5, 9))])
         args = [(i + 1, h, paths) for i, h in enumerate(todo)]
